@@ -14,6 +14,8 @@ func init() {
 	gens["C12"] = &Gen{Run: func(c *Ctx) { runTracker(c, "C12") }, Replay: replayTracker}
 	gens["C13"] = &Gen{Run: func(c *Ctx) { runTracker(c, "C13") }, Replay: replayTracker}
 	gens["C01T"] = &Gen{Run: func(c *Ctx) { runTracker(c, "C01T") }, Replay: replayTracker}
+	gens["C03T"] = &Gen{Run: func(c *Ctx) { runTracker(c, "C03T") }, Replay: replayTracker}
+	gens["C09T"] = &Gen{Run: func(c *Ctx) { runTracker(c, "C09T") }, Replay: replayTracker}
 }
 
 type trkPeer struct {
@@ -54,6 +56,28 @@ func coherentUDP(r *Rng, uc *udpCase, ih []byte, p trkPeer, left uint64, event u
 		f.action, f.ipField = 4, make([]byte, 16)
 	}
 	uc.src = p.ip
+	f.connID = validConnID(*uc, time.Duration(r.Intn(60))*time.Second)
+	uc.pkt = f.build()
+}
+
+// spoofUDP: the provided-address field in either action, crossing families with the source; sources include v4-mapped ones
+func spoofUDP(r *Rng, uc *udpCase, ih []byte, p trkPeer, left uint64, event uint32, numwant uint32) {
+	f := annFields{action: 1, tx: r.Bytes(4), ih: ih, pid: p.id, left: left, event: event, key: uint32(r.U64()), numWant: numwant, port: p.port, ipField: make([]byte, 4)}
+	uc.spoof = r.Bool()
+	uc.src = p.ip
+	if len(p.ip) == 4 && r.Intn(3) == 0 {
+		uc.src = p.ip.To16()
+	}
+	if r.Bool() {
+		f.action, f.ipField = 4, make([]byte, 16)
+	}
+	if r.Intn(3) != 0 {
+		if f.action == 1 {
+			copy(f.ipField, []net.IP{{10, 0, 0, 9}, {10, 0, 0, 1}, {0, 0, 0, 1}}[r.Intn(3)])
+		} else {
+			copy(f.ipField, []net.IP{net.ParseIP("2001:db8::9"), net.ParseIP("::ffff:10.0.0.8"), net.ParseIP("::1"), net.ParseIP("2001:db8::1")}[r.Intn(4)])
+		}
+	}
 	f.connID = validConnID(*uc, time.Duration(r.Intn(60))*time.Second)
 	uc.pkt = f.build()
 }
@@ -111,6 +135,7 @@ func runTracker(c *Ctx, profile string) {
 				tc.pre, tc.post = randChain(r, 6, 35), randChain(r, 4, 25)
 			case "C13":
 				tc.pre, tc.post = randChain(r, 3, 10), randChain(r, 2, 10)
+			case "C09T", "C03T": // stock hooks only
 			default:
 				if r.Intn(6) == 0 {
 					tc.pre = randChain(r, 2, 0)
@@ -130,10 +155,32 @@ func runTracker(c *Ctx, profile string) {
 			e := r.Intn(len(evs))
 			nw := []int{-1, -1, 0, 1, 2, 50, 200}[r.Intn(7)]
 			malformed := profile == "C13" && r.Intn(2) == 0
-			switch r.Intn(10) {
+			pick := r.Intn(10)
+			if profile == "C09T" { // UDP only, scrape-heavy: the whole path datagram -> logic -> store -> datagram
+				pick = []int{4, 5, 6, 8, 8, 8, 8, 8, 9, 4}[pick]
+			}
+			if profile == "C03T" { // announces of both frontends, then scrapes
+				pick = []int{0, 1, 2, 4, 5, 6, 4, 7, 8, 9}[pick]
+				if nw < 50 && r.Intn(4) != 0 {
+					nw = 200
+				}
+			}
+			switch pick {
 			case 0, 1, 2, 3: // HTTP announce
 				hc := httpCase{remoteAddr: p.remote(), maxnw: 100, defnw: 50, maxsc: 50}
 				hc.uri = coherentURI(r, ih, p, left, evs[e], nw, r.Bool())
+				if profile == "C03T" {
+					hc.spoof = r.Bool()
+					if r.Intn(3) == 0 { // dual-stack listener: an IPv4 client seen as ::ffff:a.b.c.d
+						if len(p.ip) == 4 {
+							hc.remoteAddr = fmt.Sprintf("[::ffff:%s]:40000", p.ip.String())
+						}
+					}
+					if r.Intn(2) == 0 {
+						other := []string{"10.0.0.9", "2001:db8::9", "::ffff:10.0.0.8", "::1", "0.0.0.0", "::"}[r.Intn(6)]
+						hc.uri += "&" + []string{"ip", "ipv4", "ipv6"}[r.Intn(3)] + "=" + url.QueryEscape(other)
+					}
+				}
 				if malformed {
 					switch r.Intn(4) {
 					case 0:
@@ -155,6 +202,9 @@ func runTracker(c *Ctx, profile string) {
 					nwu = uint32(nw)
 				}
 				coherentUDP(r, &uc, ih, p, left, evc[e], nwu)
+				if profile == "C03T" {
+					spoofUDP(r, &uc, ih, p, left, evc[e], nwu)
+				}
 				if malformed {
 					switch r.Intn(4) {
 					case 0:
@@ -192,7 +242,21 @@ func runTracker(c *Ctx, profile string) {
 				uc := udpCase{now: clock, skew: 10e9, maxnw: 100, defnw: 50, ms: 50, src: p.ip}
 				pk := append(validConnID(uc, time.Second), 0, 0, 0, 2)
 				pk = append(pk, r.Bytes(4)...)
-				for k := 0; k < 1+r.Intn(3); k++ {
+				nih := 1 + r.Intn(3)
+				if profile == "C09T" {
+					uc.ms = []uint32{1, 2, 3, 50}[r.Intn(4)]
+					nih = 1 + r.Intn(7)
+				}
+				for k := 0; k < nih; k++ {
+					if profile == "C09T" && k > 0 && r.Intn(3) == 0 { // repeat an earlier infohash
+						j := r.Intn(k)
+						pk = append(pk, pk[16+20*j:36+20*j]...)
+						continue
+					}
+					if profile == "C09T" && r.Intn(4) == 0 { // an unknown swarm
+						pk = append(pk, r.Bytes(20)...)
+						continue
+					}
 					pk = append(pk, ihs[r.Intn(len(ihs))]...)
 				}
 				if malformed {
